@@ -211,8 +211,16 @@ func (p *printer) args(args []Arg) {
 }
 
 func (p *printer) dirs(ds []DirUse) {
-	for _, d := range ds {
+	for i, d := range ds {
 		p.raw(" @" + d.Name)
+		if len(d.Args) > 0 && (p.lay.Mode == 2 || p.lay.Comments) && (i+len(d.Name))%2 == 0 {
+			// ignored tokens between a directive's name and its arguments: a line break (token-per-line layouts) or a blank
+			if p.lay.Mode == 2 {
+				p.sep(false)
+			} else {
+				p.raw(" ")
+			}
+		}
 		p.args(d.Args)
 	}
 }
